@@ -135,6 +135,8 @@ class LemmaKnnExact(Contract):
 def exact_fit_predict(kind, coordinates, data, params):
     """Fit an 'exact' interpolator and predict at the data points; returns (prediction, condition number or None)."""
     cond = None
+    params = dict(params)
+    refit = params.pop("_refit", False)
     if kind == "spline":
         est = verde.Spline(**params)
     elif kind == "vector":
@@ -153,6 +155,12 @@ def exact_fit_predict(kind, coordinates, data, params):
 
     with warnings.catch_warnings():
         warnings.simplefilter("ignore")
+        if refit:
+            # a REUSED estimator: first fitted to other points (fewer, elsewhere), then to the points in question
+            k = max(3, np.asarray(coordinates[0]).size - 2)
+            other = tuple(np.ravel(c)[:k] * 1.37 + 0.11 * (i + 1) * (np.ptp(np.ravel(c)) + 1.0) for i, c in enumerate(coordinates))
+            other_data = tuple(np.ravel(d)[:k] * 0.5 + 1.0 for d in data) if isinstance(data, tuple) else np.ravel(data)[:k] * 0.5 + 1.0
+            est.fit(other, other_data)
         est.fit(coordinates, data)
         pred = est.predict(coordinates)
         # a clone must behave identically (and exercises get_params on the configuration)
@@ -208,6 +216,10 @@ class ExactFitPredict(Contract):
                         yield (kind, (e2, n2), d2, params), {}
                     yield ("vector", (e2, n2), (d2, -2 * d2 + 1), {"poisson": rng.choice([-1.0, -0.5, 0.5, 1.0]), "mindist": scale * rng.choice([1e-3, 1e-1])}), {}
                     yield ("vector_of", (e2, n2), (d2, d2 * 0.5), {}), {}
+                    # reused objects (fitted before on other points) must be as exact as fresh ones
+                    for kind in ("spline", "knn", "linear", "chain"):
+                        yield (kind, (e2, n2), d2, {"_refit": True}), {}
+                    yield ("vector_of", (e2, n2), (d2, d2 * 0.5), {"_refit": True}), {}
 
     def ensures(self, a, r):
         pred, cond = r
